@@ -8,8 +8,14 @@
    DefaultConfig.errors_map taken from gen/Gen.v), as they are after the fixes
    F8, F9, F16 (and F4-F7).  Components: the read loops of Body.v / Chunked.v
    (re-stated here with the list of PARTS they yield, because every part is fed
-   to the streaming multipart parser, Multipart.markup_chunks), Fields.v for the
-   field layer.
+   to the streaming multipart parser, Multipart.markup_chunks; proofs/C12_refine.v
+   proves, for ALL inputs, that they yield the outcome and the body of
+   Chunked.body_read_env — i.e. of Body.body_read_cl / Chunked.body_read_chunked —
+   so there is no second, independent model of _iter_body / _iter_chunked),
+   Fields.v for the field layer.  The framing metadata enters as the raw header
+   values: CONTENT_LENGTH through int() (PyIntParse.py_int_dec; ValueError is a
+   ServerFault constructor: finding C12-content-length-not-int) and
+   HTTP_TRANSFER_ENCODING through Chunked.te_chunked.
 
    Every Python operation of this code path that can raise is either routed to
    [raise_] (the code catches it and calls self._raise) or is a [ServerFault]
@@ -17,7 +23,7 @@
    (None; assumed: only ValueError or RecursionError, both caught after F16) or
    what kind of value it returns.  parse_qsl (urlencoded forms) is total (C18)
    and its result is not represented.  No proofs in this file. *)
-From Verif Require Import lib.Base lib.Str lib.Utf8 lib.PyIntHex gen.Gen.
+From Verif Require Import lib.Base lib.Str lib.Utf8 lib.PyIntHex lib.PyIntParse gen.Gen.
 From Verif Require Import model.Stream model.Body.
 From Verif Require model.Chunked.
 From Verif Require Import model.MultipartRef model.Multipart model.Fields.
@@ -149,12 +155,23 @@ Fixpoint ch_parts (fuel : nat) (s : stream) (buf : nat) (maxb : option nat)
 
 Record config := mkCfg { c_memfile : nat; c_maxbody : option nat }.
 
-(* content_length (int(CONTENT_LENGTH or -1)) and the chunked flag *)
-Record framing := mkFraming { fr_cl : Z; fr_chunked : bool }.
+(* the framing metadata of the request, as the raw environ values:
+   CONTENT_LENGTH (None = absent) and HTTP_TRANSFER_ENCODING (absent = []) *)
+Record framing := mkFraming { fr_cl_raw : option str; fr_te : str }.
 
-Definition read_parts (cfg : config) (fr : framing) (s : stream) : rres :=
-  if fr_chunked fr then ch_parts (S (length (rest s))) s (c_memfile cfg) (c_maxbody cfg) [] 0
-  else cl_parts (S (length (rest s))) s (c_memfile cfg) (c_maxbody cfg) (Z.to_nat (fr_cl fr)) [] 0.
+(* BodyMixin.content_length (body_mixin.py:112): int(environ.get('CONTENT_LENGTH') or -1);
+   None = int() raises ValueError *)
+Definition content_length (fr : framing) : option Z :=
+  match fr_cl_raw fr with
+  | None => Some (-1)%Z
+  | Some [] => Some (-1)%Z
+  | Some x => py_int_dec x
+  end.
+
+(* _body_read (body_mixin.py:81) under the glue of _body: chunked wins over Content-Length *)
+Definition read_parts (cfg : config) (cl : Z) (te : str) (s : stream) : rres :=
+  if Chunked.te_chunked te then ch_parts (S (length (rest s))) s (c_memfile cfg) (c_maxbody cfg) [] 0
+  else cl_parts (S (length (rest s))) s (c_memfile cfg) (c_maxbody cfg) (Z.to_nat cl) [] 0.
 
 (* ------------------------------------------------------------------ *)
 Inductive fault :=
@@ -162,6 +179,7 @@ Inductive fault :=
 | FNegSeek                       (* seek to a negative offset *)
 | FUnmapped (cls : str)          (* _raise found no entry: the bare RequestError escapes *)
 | FEncode                        (* str.encode() of the boundary: lone surrogate in CONTENT_TYPE *)
+| FContentLength                 (* int(CONTENT_LENGTH) raises ValueError (body_mixin.py:112) *)
 | FOutOfFuel.                    (* a loop of the model ran out of fuel: would be a hang *)
 
 Inductive jkind := JObject | JNull | JOther.     (* json.loads returned a dict / None / anything else *)
@@ -246,11 +264,15 @@ Definition body_stage : (bytes * option (list section * option mp_error)) + outc
   match bnd with
   | inr o => inr o
   | inl B =>
-    match read_parts cfg fr s with
-    | RTooLarge => inr (raise_ n_BodySizeError)
-    | RParse => inr (raise_ n_BodyParsingError)
-    | ROutOfFuel => inr (ServerFault FOutOfFuel)
-    | RDone parts => inl (concat parts, option_map (fun B => markup_chunks B parts) B)
+    match content_length fr with                 (* content_length=self.content_length *)
+    | None => inr (ServerFault FContentLength)   (* ValueError: not caught by `except RequestError` *)
+    | Some cl =>
+      match read_parts cfg cl (fr_te fr) s with
+      | RTooLarge => inr (raise_ n_BodySizeError)
+      | RParse => inr (raise_ n_BodyParsingError)
+      | ROutOfFuel => inr (ServerFault FOutOfFuel)
+      | RDone parts => inl (concat parts, option_map (fun B => markup_chunks B parts) B)
+      end
     end
   end.
 
@@ -260,13 +282,16 @@ Definition get_body_string : bytes + outcome :=
   | inr o => inr o
   | inl (body, _) =>
     let mx := Z.of_nat (c_memfile cfg) in
-    let cl := fr_cl fr in
-    if (mx <? cl)%Z then inr (raise_ n_BodySizeError)
-    else
-      let n := if (cl <? 0)%Z then (mx + 1)%Z else cl in
-      let data := firstn (Z.to_nat n) body in
-      if (mx <? Z.of_nat (length data))%Z then inr (raise_ n_BodySizeError)
-      else inl data
+    match content_length fr with                 (* cached: _body already evaluated it *)
+    | None => inr (ServerFault FContentLength)
+    | Some cl =>
+      if (mx <? cl)%Z then inr (raise_ n_BodySizeError)
+      else
+        let n := if (cl <? 0)%Z then (mx + 1)%Z else cl in
+        let data := firstn (Z.to_nat n) body in
+        if (mx <? Z.of_nat (length data))%Z then inr (raise_ n_BodySizeError)
+        else inl data
+    end
   end.
 
 Definition content_type : str := lower ctype_raw.     (* exact for the ASCII comparisons below *)
@@ -343,7 +368,8 @@ Definition enc_jk (k : option jkind) : Z :=
   match k with None => 0 | Some JNull => 0 | Some JObject => 1 | Some JOther => 2 end%Z.
 
 Definition enc_fault (f : fault) : Z :=
-  match f with FAssertion => 1 | FNegSeek => 2 | FUnmapped _ => 3 | FEncode => 4 | FOutOfFuel => 5 end%Z.
+  match f with FAssertion => 1 | FNegSeek => 2 | FUnmapped _ => 3 | FEncode => 4 | FOutOfFuel => 5
+             | FContentLength => 6 end%Z.
 
 Definition enc_outcome (o : outcome) : list Z :=
   match o with
@@ -373,7 +399,10 @@ Definition dec_access (z : Z) : access :=
 Definition enc_result (cfg : config) (ctype : str) (fr : framing) (s : stream) (o : outcome) : list Z :=
   match o with
   | Ok (VMultipart d) =>
-    let body := match read_parts cfg fr s with RDone parts => concat parts | _ => [] end in
+    let body := match content_length fr with
+                | Some cl => match read_parts cfg cl (fr_te fr) s with RDone parts => concat parts | _ => [] end
+                | None => []
+                end in
     [0; 4]%Z ++ enc_fdict body 0 (d_post d) ++ enc_fdict body 0 (d_forms d) ++ enc_fdict body 0 (d_files d)
   | _ => enc_outcome o
   end.
@@ -381,10 +410,16 @@ Definition enc_result (cfg : config) (ctype : str) (fr : framing) (s : stream) (
 Definition dec_nat_item (l : list Z) : option (nat * list Z) := dec_nat l.
 Definition dec_Z_item (l : list Z) : option (Z * list Z) := dec_Z l.
 
-(* input: memfile ; has_max ; max ; cl ; chunked ; access ; ctype ; data ; sched ; jtab *)
+(* input: memfile ; has_max ; max ; has_cl ; access ; cl_raw ; te ; ctype ; data ; sched ; jtab *)
 Definition corr_C12 (inp : list Z) : list Z :=
   match inp with
-  | mem :: hm :: mx :: cl :: chk :: acc :: r =>
+  | mem :: hm :: mx :: hcl :: acc :: r0 =>
+    match dec_str r0 with
+    | None => bad_input
+    | Some (clraw, r00) =>
+    match dec_str r00 with
+    | None => bad_input
+    | Some (te, r) =>
     match dec_str r with
     | Some (ctype, r1) =>
       match dec_str r1 with
@@ -394,7 +429,7 @@ Definition corr_C12 (inp : list Z) : list Z :=
           match dec_list dec_Z_item r3 with
           | Some (tab, _) =>
             let cfg := mkCfg (Z.to_nat mem) (if Z.eqb hm 0 then None else Some (Z.to_nat mx)) in
-            let fr := mkFraming cl (negb (Z.eqb chk 0)) in
+            let fr := mkFraming (if Z.eqb hcl 0 then None else Some clraw) te in
             let st := stream_init data sc in
             enc_result cfg ctype fr st (process (jk_of_table tab) cfg ctype fr st (dec_access acc))
           | None => bad_input
@@ -404,6 +439,8 @@ Definition corr_C12 (inp : list Z) : list Z :=
       | None => bad_input
       end
     | None => bad_input
+    end
+    end
     end
   | _ => bad_input
   end.
